@@ -366,3 +366,46 @@ Proof.
       change ([104; l; l; 104] ++ (c :: a0 :: a1 :: data) ++ [cs8 (c :: a0 :: a1 :: data); 22]) with ([104; l; l; 104; c; a0; a1] ++ data ++ [cs8 (c :: a0 :: a1 :: data); 22]).
       change (5 + 2) with (lenz [104; l; l; 104; c; a0; a1]). apply slice_mid.
 Qed.
+
+(* ------------------------------------------------------------------ completeness: every frame satisfying the clauses is accepted *)
+Ltac cstep :=
+  match goal with
+  | |- context [if ?b then _ else _] =>
+     match b with
+     | context [?x =? ?y] =>
+         match x with context [if _ then _ else _] => fail 1 | _ => idtac end;
+         let E := fresh "G" in destruct (x =? y) eqn:E
+     | context [?x <? ?y] => let E := fresh "G" in destruct (x <? y) eqn:E
+     | context [bitz ?x ?y] => let E := fresh "G" in destruct (bitz x y) eqn:E
+     end; cbn [negb andb orb]; cbv beta iota
+  end.
+
+Ltac norm45 := change (4 + 1) with 5 in *; change (4 + 2) with 6 in *; change (1 + 1) with 2 in *; change (1 + 2) with 3 in *;
+  change (2 + 0) with 2 in *; change (2 + 1) with 3 in *; change (2 + 2) with 4 in *.
+
+Theorem parse_su_complete : forall alen own msg fc bc fcb fcv uds udl, 0 <= alen <= 2 ->
+  own <> broadcast_addr alen ->
+  su_accepts alen own msg fc bc fcb fcv uds udl ->
+  parse_su true alen own msg = SuOk fc bc fcb fcv uds udl.
+Proof.
+  intros alen own msg fc bc fcb fcv uds udl H Hnb A.
+  unfold su_accepts, rx_var_ok, rx_fixed_ok, rx_address, rx_ctrl, broadcast_addr in *.
+  destruct A as (Sh & Ad & Pr & -> & -> & ->).
+  unfold parse_su. cbv zeta.
+  destruct Sh as [((V0 & V1 & V2 & V3 & V4) & -> & ->) | ((F0 & F1) & -> & ->)].
+  - assert (E0 : nthz msg 0 =? 104 = true) by (apply Z.eqb_eq; exact V0). rewrite E0 in *. cbv iota in *.
+    alen_cases H; numsimp; cbn [andb];
+    repeat (cstep; try (exfalso; norm45; to_prop; rewrite ?cs8_spec in *;
+                        first [ lia | congruence
+                              | match goal with G : sumz (slice msg 4 ?k) mod 256 <> nthz msg ?k |- _ => replace k with (lenz msg - 2) in G by lia; congruence end
+                              | destruct bc; [destruct Ad; congruence | congruence] ]));
+    norm45; to_prop; destruct bc; try (destruct Ad); try congruence; try lia; rewrite ?Pr in *; try discriminate;
+    f_equal; try lia; try congruence.
+  - assert (E0 : nthz msg 0 =? 104 = false) by (apply Z.eqb_neq; lia). rewrite E0 in *. cbv iota in *.
+    assert (E1 : nthz msg 0 =? 16 = true) by (apply Z.eqb_eq; exact F0). rewrite E1. cbv iota.
+    alen_cases H; numsimp; cbn [andb];
+    repeat (cstep; try (exfalso; norm45; to_prop; rewrite ?cs8_spec in *;
+                        first [ lia | congruence | destruct bc; [destruct Ad; congruence | congruence] ]));
+    norm45; to_prop; destruct bc; try (destruct Ad); try congruence; try lia; rewrite ?Pr in *; try discriminate;
+    f_equal; try lia; try congruence.
+Qed.
